@@ -207,6 +207,16 @@ pub fn run_c16(seed: u64, n: usize, out: &mut Out) {
         crate::c11::emit_cplines(out, &lines);
         crate::c11::emit_plines(out, &lines.iter().filter(|l| !l.contains('#')).cloned().collect::<Vec<_>>());
         let mut e = Engine::from_rules_parametrised(&lines, Default::default(), true, true);
+        if r.pct(35) {
+            // the answers of a saved and reloaded engine are the same function of the rules
+            if let Ok(bytes) = e.serialize_raw() {
+                let mut e2 = Engine::new(true);
+                if e2.deserialize(&bytes).is_ok() {
+                    e = e2;
+                    out.bump("c16_engines_reloaded");
+                }
+            }
+        }
         e.use_resources(resources.clone());
         let mut ghide_rules = parse_all(&lines);
         ghide_rules.retain(|p| p.has(adblock::filters::network::NetworkFilterMask::GENERIC_HIDE));
@@ -377,6 +387,15 @@ pub fn run_c17(seed: u64, n: usize, out: &mut Out) {
             lines.push(format!("###{}", i));
             lines.push(format!("###{} ~ .promo", i));
         }
+        // names are compared exactly: an identifier that begins or ends with an (escaped) space is its own name, and a padded
+        // spelling of an ordinary name is another name
+        let spaced = r.pct(30);
+        if spaced {
+            lines.push("###\\ rek".to_string());
+            lines.push("##.sponsor\\  > a".to_string());
+            lines.push("##.plain".to_string());
+            lines.push("###plainid".to_string());
+        }
         crate::c11::emit_cplines(out, &lines);
         let mut e = Engine::from_rules_parametrised(&lines, Default::default(), true, true);
         // the lookup answers the same after the engine went through serialize / deserialize
@@ -400,6 +419,11 @@ pub fn run_c17(seed: u64, n: usize, out: &mut Out) {
         let dumps: Vec<String> = crules.iter().map(dump_crule).collect();
         let classes: Vec<String> = (0..r.below(4)).map(|_| r.pick(&["ad", "ad-banner", "a:b", "123", "x", "AD", "_a", "ad.x", "nope", ""]).to_string()).collect();
         let ids: Vec<String> = (0..r.below(3)).map(|_| r.pick(&["ad", "top_ad", "Ad", "banner", "-x_y", "nope"]).to_string()).collect();
+        let (mut classes, mut ids) = (classes, ids);
+        if spaced || r.pct(15) {
+            classes.push(r.pick(&["sponsor ", " plain", "plain ", "\tad", " ad", "ad ", " ", "sponsor", "plain", "ad\u{a0}"]).to_string());
+            ids.push(r.pick(&[" rek", "rek", " plainid", "plainid ", "ad ", " top_ad", "  ", "plainid"]).to_string());
+        }
         let exc: HashSet<String> = (0..r.below(3)).map(|_| sel(&mut r)).collect();
         let got = e.hidden_class_id_selectors(&classes, &ids, &exc);
         let mut gh: Vec<String> = got.iter().map(|x| hex(x)).collect();
